@@ -1152,6 +1152,21 @@ func (vm *VM) run() (Addr, bool) {
 				panic(errNilPointer)
 			}
 			method := vm.stringk(b, true)
+			// A method value with a value receiver is bound to a copy of
+			// the receiver made when the method value is evaluated.
+			if receiver.Kind() == reflect.Ptr {
+				if _, ok := receiver.Type().Elem().MethodByName(method); ok {
+					if receiver.IsNil() {
+						panic(errNilPointer)
+					}
+					receiver = receiver.Elem()
+				}
+			}
+			if receiver.CanAddr() {
+				rv := reflect.New(receiver.Type()).Elem()
+				rv.Set(receiver)
+				receiver = rv
+			}
 			vm.setGeneral(c, reflect.ValueOf(&callable{value: receiver.MethodByName(method)}))
 
 		// Move
